@@ -207,7 +207,7 @@ pub fn genuine_messages(config: Config) -> std::collections::BTreeMap<usize, Vec
         w.send_event(C3(seq(CK::C3.tag(), 203)));
         w.send_event(CM { seq: seq(CK::CM.tag(), 204), e: ce });
         w.client_trigger_targets(CT(seq(CK::CT.tag(), 205)), ce);
-        w.send_event(CS { seq: seq(CK::CS.tag(), 206), text: "hello".into() });
+        w.send_event(CS { seq: seq(CK::CS.tag(), 206), text: "hello".into(), nums: vec![7, 9] });
         sim.client_frame(1).expect("client frame");
         grab(&mut sim, &mut out);
     }
